@@ -72,6 +72,18 @@ def interval_steps(tg, split):
     return out
 
 
+def product_problem(sc):
+    """the split problem as one OptimProblem-like object (block diagonal), for numeric replays"""
+    import scipy.sparse as sp
+    import types
+    ops = sc.ops
+    A = sp.block_diag([op.A if op.A is not None else sp.csr_matrix((0, len(op.c))) for op in ops]).tocsr()
+    return types.SimpleNamespace(c=np.hstack([np.asarray(op.c, dtype=float) for op in ops]), l=np.hstack([np.asarray(op.l, dtype=float) for op in ops]),
+                                 u=np.hstack([np.asarray(op.u, dtype=float) for op in ops]), A=A,
+                                 b=np.hstack([np.asarray(op.b, dtype=float) for op in ops]), cType=''.join(op.cType for op in ops),
+                                 mapping=sc.op.mapping, map_nodal_restr=None)
+
+
 class ProductLP:
     """the split problem as one problem: block-diagonal product of the interval problems, keyed by the global (split) mapping"""
 
@@ -203,6 +215,16 @@ def observe(case, kwargs, env, rq):
         o['s_split'] = res_s if isinstance(res_s, str) else 'optimal'
         o['v_unsplit'], o['s_unsplit'] = embed_lp.optimum(sc2.op)
         o['ivs'] = interval_steps(sc.sh.tg, kwargs['split'])
+        info = rq.get('info', {})
+        if info.get('kind') == 'emb':
+            try:
+                pp = product_problem(sc)
+                if info.get('dir') == 'split2unsplit':
+                    o['nums'] = embed_lp.replay_keys(pp, sc2.op, env, 'x')
+                else:
+                    o['nums'] = embed_lp.replay_keys(sc2.op, pp, env, 'y')
+            except Exception as e:  # noqa: BLE001 - numbers are optional extra evidence
+                o['nums_error'] = str(e)
         o['T'] = sc.sh.tg.T
         o['n_c'] = len(sc.op.c)
         # is the concatenated split solution feasible for the unsplit problem? (limits and nodal balance on the original grid)
@@ -248,6 +270,11 @@ def judge(case, kwargs, cand, ans):
     bad, text = embed_lp.judge_values(o.get('v_split'), o.get('s_split'), o.get('v_unsplit'), o.get('s_unsplit'), rel, what=('split', 'unsplit'))
     if bad:
         return True, text
+    if 'nums' in o and 'label' in info:
+        what = ('split', 'unsplit') if info.get('dir') == 'split2unsplit' else ('unsplit', 'split')
+        b2, t2 = embed_lp.judge_numbers(o['nums'], info.get('label'), rel, what=what)
+        if b2:
+            return True, t2
     if o.get('unmatched'):
         return True, 'unsplit variables %s are not covered by any interval' % o['unmatched'][:5]
     if o.get('concat_residual', 0) > 1e-6:
